@@ -280,6 +280,18 @@ def gen_cases(rng, tier):
             c["steps"] = [{"app": [{"len": 20, "seed": 1}]}, {"app": [{"len": n, "seed": 2}]}, {"app": [{"len": 5, "seed": 3}]}]
             c["cuts"] = gen_cuts(rng, stream_len(c))
             cases.append(c)
+    # MAXMSGSIZE set on an encrypted link: every frame within the limit, the RECORD (a whole multipart message / a coalesced
+    # batch) well above it - must be delivered like over NULL (added after C18-record-length-guard-assumes-one-frame)
+    for mech in ("curve", "noise"):
+        for (mxs, shape) in ((1024, [[1000, 1000, 1000]]), (1024, [[1024]]), (400, [[400, 0, 400], [5]]), (500, "batch")):
+            c = base_case(rng, mech)
+            c["maxsz"] = mxs
+            if shape == "batch":
+                c["steps"] = [{"batch": [[{"more": False, "len": 450, "seed": k}] for k in range(4)]}, {"app": [{"more": False, "len": 7, "seed": 9}]}]
+            else:
+                c["steps"] = [{"app": [{"more": i < len(m) - 1, "len": n, "seed": 11 + i} for i, n in enumerate(m)]} for m in shape]
+            c["cuts"] = gen_cuts(rng, stream_len(c))
+            cases.append(c)
     cases += all_single_mutations(rng)
     n_h, n_hb, n_m1, n_m2, n_big, n_mb = (40, 24, 60, 50, 8, 6) if quick else (800, 300, 1800, 1800, 120, 60)
     for _ in range(n_h):
@@ -442,7 +454,13 @@ def oracle(c, o):
 
     if not mutated:
         # --- decodability of everything the endpoint emitted, of any size
-        limited = c.get("maxsz", -1) >= 0
+        # MAXMSGSIZE only excuses a refusal when some FRAME exceeds it: a multipart message or a coalesced batch whose frames
+        # are all within the limit must be delivered however large the record is (added after the seeded change
+        # C18-record-length-guard-assumes-one-frame)
+        mxs = c.get("maxsz", -1)
+        frame_lens = [f["len"] if "len" in f else len(f.get("bytes", [])) for st in c["steps"]
+                      for f in (st.get("app") or [x for g in st.get("batch", []) for x in g])]
+        limited = mxs >= 0 and any(n > mxs for n in frame_lens)
         if delivered != all_msgs[:len(delivered)]:
             return ("the peer delivered something that was not sent (wrong, partial or duplicated message)", None)
         if not limited and (len(delivered) < len(all_msgs) or rcv_err):
